@@ -609,6 +609,9 @@ func (c *FnCtx) prelude() string {
 				// removal loops need the witnesses of the old sequence carried over to the new one)
 				n := sortName(Sort(s))
 				fmt.Fprintf(&b, "(assert (forall ((s %s) (a Int) (b Int) (k Int)) (! (=> (and (<= 0 a) (<= a k) (< k b) (<= b (len_%s s))) (= (at_%s (sub_%s s a b) (- k a)) (at_%s s k))) :pattern ((sub_%s s a b) (at_%s s k)))))\n", s, n, n, n, n, n, n)
+				es := elemSort(Sort(s))
+				fmt.Fprintf(&b, "(assert (forall ((s %s) (x %s)) (! (= (at_%s (app1_%s s x) (len_%s s)) x) :pattern ((app1_%s s x)))))\n", s, es, n, n, n, n)
+				fmt.Fprintf(&b, "(assert (forall ((s %s) (x %s) (k Int)) (! (=> (and (<= 0 k) (< k (len_%s s))) (= (at_%s (app1_%s s x) k) (at_%s s k))) :pattern ((app1_%s s x) (at_%s s k)))))\n", s, es, n, n, n, n, n, n)
 			}
 		}
 	}
